@@ -1,6 +1,6 @@
 """Which rules exist, which properties are claimed, their floors and evidence texts."""
 
-RULE_MODULES = ['descent', 'null', 'live', 'gate', 'alloc', 'immobile', 'reset', 'pool', 'stale', 'layer']
+RULE_MODULES = ['descent', 'null', 'live', 'gate', 'alloc', 'immobile', 'reset', 'pool', 'stale', 'layer', 'twin']
 
 # rules whose instance set legitimately differs between debug and release-like MIR
 CONFIG_DEPENDENT_RULES = {'PANICSITE'}
@@ -182,3 +182,17 @@ min(old, x) before code that may unwind, or set after the complete retain [LAYER
 transaction restores validity (C02).""",
      ["C02 (complete transactions leave a valid tree)", "Vec::retain is panic-safe (std documentation)"],
      {'LAYER': 100})
+
+prop('C02', """
+Static analysis (canonical HIR comparison; a contradiction rule whose reference is the current tree itself). Decided
+clauses: the structural core of the three tree modules (every non-trait function of the tree and its pool that runs no
+user code: both rotations, insert repair, removal, delete repair and its case handlers, child-link helpers, pool
+functions - 27 functions present in at least two copies) has the same canonical form in every copy (payload field and
+its clone/copy abstracted, debug assertions, names of locals, generic arguments ignored); every left/right function
+pair (rotate_*, insert_as_*, expire_*, find_*_minimum, index_after/before) is an exact mirror image; in every if/else
+chain whose conditions are mirror images (side predicates x == p.left / x == p.right, l != EMPTY_REF / r != EMPTY_REF)
+the arms are mirror images (10 chains per copy) [TWIN]. NOT decided: that the consistent, symmetric algorithm restores
+the colour invariants (needs a proof or exploration of tree shapes: another technique family); a change made
+identically in all copies and both mirrors is invisible to TWIN; the height bound is a consequence and assumed.""",
+     ["the shared algorithm is the textbook red-black repair (not re-verified)"],
+     {'TWIN': 50})
